@@ -20,6 +20,13 @@ pub trait CommandFdInjectionExt {
         &mut self,
         open_files: impl Iterator<Item = (ShellFd, openfiles::OpenFile)>,
     ) -> Result<(), error::Error>;
+
+    /// Arranges for the given file descriptor to be closed in the command's process.
+    ///
+    /// # Arguments
+    ///
+    /// * `fd` - The file descriptor the command must start without.
+    fn close_fd(&mut self, fd: ShellFd);
 }
 
 impl CommandFdInjectionExt for std::process::Command {
@@ -41,6 +48,19 @@ impl CommandFdInjectionExt for std::process::Command {
             .map_err(|_e| error::ErrorKind::ChildCreationFailure)?;
 
         Ok(())
+    }
+
+    fn close_fd(&mut self, fd: ShellFd) {
+        // SAFETY:
+        // This arranges for a provided function to run in the context of
+        // the forked process before it exec's the target command; it only
+        // calls close(2), which is async-signal-safe.
+        unsafe {
+            self.pre_exec(move || {
+                libc::close(fd);
+                Ok(())
+            });
+        }
     }
 }
 
